@@ -169,12 +169,13 @@ func (d *Driver) Close() {
 
 // DriverPool runs several driver processes for parallel checks.
 type DriverPool struct {
-	ch  chan *Driver
-	all []*Driver
+	path string
+	ch   chan *Driver
+	all  []*Driver
 }
 
 func newDriverPool(path string, n int) (*DriverPool, error) {
-	p := &DriverPool{ch: make(chan *Driver, n)}
+	p := &DriverPool{ch: make(chan *Driver, n), path: path}
 	for i := 0; i < n; i++ {
 		d, err := startDriver(path)
 		if err != nil {
